@@ -1,0 +1,25 @@
+//go:build verif
+
+// Package verifhook provides yield points for the verification harness in /verif.
+// With the verif build tag Yield calls the hook installed by the harness, if any.
+package verifhook
+
+import "sync/atomic"
+
+var hook atomic.Pointer[func(point string)]
+
+// Set installs (or, with nil, removes) the function called at every yield point.
+func Set(f func(point string)) {
+	if f == nil {
+		hook.Store(nil)
+		return
+	}
+	hook.Store(&f)
+}
+
+// Yield marks a point where the verification harness may pause the calling goroutine.
+func Yield(point string) {
+	if f := hook.Load(); f != nil {
+		(*f)(point)
+	}
+}
